@@ -24,6 +24,9 @@ CLAIMED = {
  "C18": ("metamorphic pairs over proptest-generated sources: rule trees through two independent printers (SCSS / indented), generated plain CSS parsed as CSS vs SCSS, 30 Sass-only constructs that CSS mode must reject, and token-preserving rewrites (LF/CRLF/CR/FF, BOM, @charset, whitespace + silent comments at safe gaps, _/- in names) of corpus entries, value-heavy sheets and rule trees; oracle = byte-identical CSS or both fail",
          "Sampling of sources and rewrites with shrinking; a green run means every explored pair agreed.",
          "2/C18"),
+ "C03": ("proptest-generated well-typed terminating programs over the Sass core (variables, !default/!global, @if/@for/@each/@while, functions, mixins with all argument forms, @content using, @debug/@warn); oracle = independent reference interpreter written from the language rules, comparing per-selector declaration sequences and the logger message sequence",
+         "Sampling of programs with shrinking; a green run means grass and the reference interpreter agreed on every generated program (bounded depth 4, loop bounds <= 6, <= 60 statements).",
+         "2/C03"),
  "C04": ("proptest-generated rule trees (style rules with & in every position, nested properties, @media/@supports/unknown at-rules, @at-root with/without queries); oracle = independent hand-flattening model compared as multiset, per at-rule-path order and global order",
          "Sampling of rule trees with shrinking; a green run means flattening agreed with the model on every generated tree (bounded depth 4 / width 3).",
          "2/C04"),
